@@ -2977,3 +2977,429 @@ Proof.
   - intros k e b0 Hp. rewrite (placed_blocks_eq t4 sF) by apply fin_prop_blocks. unfold t4, t3. autorewrite with plc. apply Dc.
     unfold t1. autorewrite with plc. exact Hp.
 Qed.
+
+Lemma S_try_ns k body hs fb : S_block body -> S_handlers hs -> S_block fb -> S_stmt (Try k body hs ONone (OSome fb)).
+Proof.
+  intros Sb Sh Sf s l inl I Hlok Hinl. cbn [lok_stmt lok_oblock] in Hlok. rewrite !andb_true_r in Hlok.
+  apply andb_true_iff in Hlok. destruct Hlok as (Hlok & Hlok3). apply andb_true_iff in Hlok. destruct Hlok as (Hlok1 & Hlok2).
+  set (L := l (cur s)).
+  open_try'. bsimp.
+  pose proof (i_wfb _ I) as Wb. pose proof (i_cur _ I) as Hc. pose proof (wb_two _ Wb) as H2.
+  set (f := N.succ (N.succ (next s))) in *.
+  set (t5 := nb (nb (connect (nb s) (cur s) (next s) ENormal))) in *.
+  assert (M5 : mid anyb s t5) by (apply mid_nb, mid_nb, mid_connect; [apply mid_nb, mid_refl_b; exact Wb|left; exact Logic.I|uflia|uflia]).
+  assert (K5 : klt t5) by (apply klt_nb, klt_nb, klt_connect, klt_nb; exact (i_klt _ I)).
+  assert (N5 : next t5 = N.succ (N.succ (N.succ (next s)))) by reflexivity.
+  destruct (try_setup_sim s t5 (arms_length hs) (Some f) hbs s6 I M5 K5 eq_refl eq_refl eq_refl) as (M7 & Wb7 & K7 & N7 & L7 & X7 & E7 & Hlen & Hh & P7);
+    [intros k' e' b; unfold t5; autorewrite with plc; reflexivity|rewrite N5; flia|intros g Hg; inversion Hg; subst g; rewrite N5; unfold f; flia|exact Enb|].
+  set (t7 := set_excs s6 ({| x_finally := Some f; x_handlers := hbs; x_processing := false |} :: excs s6)) in *.
+  rewrite N5 in *.
+  set (rb := flow_block L body). set (rh := flow_arms L hs). set (rf := flow_block L fb).
+  set (l1 := try_lab s l L (rn rf)).
+  assert (A1 : agree (next s) l l1) by (intros b Hb; apply try_lab_old; exact Hb).
+  subst s8p.
+  destruct (S_try_body s t7 (next s) f f hbs (Some f) l l1 inl body hs Sb Sh I M7 Wb7 K7 L7 X7) as (l3 & TB);
+    try assumption; try (unfold f; flia).
+  { intros h Hh'. apply Hh in Hh'. flia. }
+  { intros g Hg. inversion Hg; subst g. unfold f. repeat split; try flia. intro Hin. apply Hh in Hin. flia. }
+  { unfold l1. apply try_lab_new; flia. }
+  { intros h Hh'. apply Hh in Hh'. unfold l1. apply try_lab_new; flia. }
+  { intros g Hg. inversion Hg; subst g. unfold l1. apply try_lab_new; unfold f; flia. }
+  { intro Hn. unfold l1. rewrite try_lab_new by (unfold f; flia). apply (rn_block_le _ _ Hn). }
+  { intro Hn. unfold l1. rewrite try_lab_new by (unfold f; flia). apply (rn_arms_le _ _ Hn). }
+  rewrite <- Es11p in TB.
+  destruct TB as (A3 & M11 & L11 & X11 & K11 & C11 & N11 & So & Co & Da & Db & Dc). fold L rb rh in So, Co, Da, Db.
+  assert (M11' : mid anyb s s11p) by (apply (mid_transA _ anyb s t7); [exact M7|exact M11|intros; left; exact Logic.I]).
+  destruct (S_try_fin s s11p f hbs l l3 inl fb Sf I M11' K11) as (l4 & TF); try assumption; try (unfold f; flia).
+  { rewrite L11. exact L7. }
+  { rewrite X11. exact X7. }
+  { intros h Hh'. apply Hh in Hh'. flia. }
+  { intros b Hb. rewrite (A3 b) by flia. apply A1. exact Hb. }
+  { rewrite (A3 f) by (unfold f; flia). unfold l1. apply try_lab_new; unfold f; flia. }
+  { intros h Hh'. apply Hh in Hh'. rewrite (A3 h) by flia. unfold l1. apply try_lab_new; flia. }
+  { rewrite (A3 (N.succ (next s))) by flia. unfold l1. apply try_lab_exit. }
+  cbv zeta in TF. rewrite <- Et2p in TF.
+  set (sF := fin_prop (connect (set_processing t2p false) (cur (set_processing t2p false)) (N.succ (next s)) ENormal) f) in *.
+  destruct TF as (A4 & MF & LF & XF & KF & NF & SoF & CoF & DaF & DbF & DcF). fold L rf in SoF, CoF, DaF, DbF.
+  rewrite XF. cbn [tl].
+  exists l4. split; [intros b Hb; rewrite (A4 b) by flia; rewrite (A3 b) by flia; apply A1; exact Hb|].
+  cbn [flow_stmt flow_oblock opt_n rn rk rmarks spans_stmt spans_oblock elif_stmt elif_oblock]. fold L rb rh rf. rewrite !app_nil_l.
+  split; [|split; [|split; [|split; [|split; [|split]]]]].
+  - apply lframe_mid; autorewrite with bst; try flia.
+    + apply mid_set_excs. apply (mid_transA _ anyb s s11p); [exact M11'|exact MF|intros; left; exact Logic.I].
+    + exact LF.
+    + reflexivity.
+    + apply klt_set_excs. exact KF.
+  - autorewrite with bst. rewrite (A4 (N.succ (next s))) by flia. rewrite (A3 (N.succ (next s))) by flia. unfold l1. apply try_lab_exit.
+  - intros Hctx Hb Cl. autorewrite with bst. apply SoF; [exact Hctx|exact Hb|]. apply So; [exact Hctx| |].
+    + intro Hk. apply Hb. apply orb_true_iff in Hk. destruct Hk as [Hk|Hk]; [apply (rk_block_le _ _ Hk)|apply (rk_arms_le _ _ Hk)].
+    + rewrite E7, closed_snoc. split; [apply (closed_ext l); assumption|].
+      unfold l1. rewrite try_lab_old by exact Hc. rewrite try_lab_new by flia. exact (fun H => H).
+  - intros E HE HR. autorewrite with bst in HE.
+    assert (HE11 : incl (edges s11p) E).
+    { destruct (m_edges _ _ _ MF) as (D & ED & _). intros x Hx. apply HE. rewrite ED. apply in_or_app. left. exact Hx. }
+    assert (HRt : L = true -> reach E (next s)).
+    { intro HL. eapply reach_step; [apply HR; exact HL|]. apply HE11. destruct (m_edges _ _ _ M11) as (D & ED & _). rewrite ED, E7.
+      apply in_or_app. left. apply in_or_app. right. left. reflexivity. }
+    destruct (Co E HE11 HRt) as (P4 & P1 & P1h & PH & P2 & P3).
+    assert (HRf : L = true -> reach E f).
+    { intro HL. destruct (rn rb) eqn:Erb; [apply P1; reflexivity|]. apply (P3 HL eq_refl f). apply (push_Cfin_some s t7 hbs f); assumption. }
+    destruct (CoF E HE HRf) as (P4F & P1F & P2F & P3F).
+    autorewrite with bst. split; [|split].
+    + intros b Hb1 Hb2 Hb3. destruct (N.lt_ge_cases b (next s11p)) as [Hlt11|Hge11]; [|apply P4F; assumption].
+      rewrite (A4 b Hlt11) in Hb3.
+      destruct (N.lt_ge_cases b (next t7)) as [Hlt|Hge]; [|apply P4; assumption].
+      rewrite (A3 b Hlt) in Hb3. destruct (N.eq_dec b (N.succ (next s))) as [->|Hne].
+      * unfold l1 in Hb3. rewrite try_lab_exit in Hb3. apply P1F. exact Hb3.
+      * unfold l1 in Hb3. rewrite try_lab_new in Hb3 by assumption.
+        destruct (N.eq_dec b (next s)) as [->|Hne']; [apply HRt; exact Hb3|].
+        destruct (N.eq_dec b f) as [->|Hne'']; [apply HRf; exact Hb3|].
+        apply PH; [apply Hh; unfold f in *; flia|exact Hb3].
+    + exact P2F.
+    + intros HL _ g Hg. apply (P3F HL g Hg).
+  - intros k' e' b Hp. autorewrite with plc in Hp. destruct (DaF k' e' b Hp) as [Hp0|[Hk|(Hm & Hs)]].
+    + destruct (Da k' e' b Hp0) as [Hp1|[Hk|(Hm & Hs)]]; [left; apply P7; exact Hp1|right; left; exact Hk|].
+      right. right. split; [|rewrite app_assoc; apply in_or_app; left; exact Hs].
+      assert (Hb : b < next s11p).
+      { destruct Hp0 as (lst & y & Hin & _). apply K11. unfold haskey. apply in_map_iff. exists (b, lst). split; [reflexivity|exact Hin]. }
+      rewrite (A4 b Hb). rewrite app_assoc. apply in_or_app. left. exact Hm.
+    + right. left. exact Hk.
+    + right. right. split; [rewrite app_assoc; apply in_or_app; right; exact Hm|rewrite app_assoc; apply in_or_app; right; exact Hs].
+  - intros k' m Hin. rewrite app_assoc in Hin. apply in_app_or in Hin. destruct Hin as [Hin|Hin].
+    + destruct (Db k' m Hin) as [He|(e' & b & Hp & Hm)]; [left; rewrite app_assoc; apply in_or_app; left; exact He|].
+      right. exists e', b. split; [autorewrite with plc; apply DcF; exact Hp|].
+      assert (Hb : b < next s11p).
+      { destruct Hp as (lst & y & Hin' & _). apply K11. unfold haskey. apply in_map_iff. exists (b, lst). split; [reflexivity|exact Hin']. }
+      rewrite (A4 b Hb). exact Hm.
+    + destruct (DbF k' m Hin) as [He|(e' & b & Hp & Hm)]; [left; rewrite app_assoc; apply in_or_app; right; exact He|].
+      right. exists e', b. split; [autorewrite with plc; exact Hp|exact Hm].
+  - intros k' e' b Hp. autorewrite with plc. apply DcF, Dc. apply P7. exact Hp.
+Qed.
+
+(* ---- try: the else block (entered when the body ends normally) ---- *)
+Definition TE_out (s s11 : st) (elseb afe : N) (Le : bool) (l l3 : lam) (eb : block) (s12 : st) (l4 : lam) : Prop :=
+  let re := flow_block Le eb in
+  agree (next s11) l3 l4 /\ mid anyb s11 s12 /\ loops s12 = loops s11 /\ excs s12 = excs s11 /\ klt s12 /\ next s11 <= next s12 /\
+  ((Le = true -> ctx_ok l s) -> (rk re = true -> brk_ok l s) -> (rn re = true -> l3 afe = true) -> closed l3 (edges s11) -> closed l4 (edges s12)) /\
+  (forall E, incl (edges s12) E -> (Le = true -> reach E elseb) ->
+     (forall b0, next s11 <= b0 -> b0 < next s12 -> l4 b0 = true -> reach E b0) /\
+     (rn re = true -> reach E afe) /\
+     (rk re = true -> noproc s11 -> forall t0, brk_t s11 = Some t0 -> reach E t0) /\
+     (Le = true -> rn re = false -> forall g, Cfin g s11 -> reach E g)) /\
+  (forall k e b0, placed s12 k e b0 -> placed s11 k e b0 \/ k = 0 \/ (In (k, l4 b0) (rmarks re) /\ In (k, e) (spans_block eb))) /\
+  (forall k m, In (k, m) (rmarks re) -> In k (elif_block eb) \/ exists e b0, placed s12 k e b0 /\ l4 b0 = m) /\
+  (forall k e b0, placed s11 k e b0 -> placed s12 k e b0).
+
+Lemma S_try_else s s11 elseb afe finb hbs l l3 inl eb :
+  S_block eb -> inv s -> mid anyb s s11 -> klt s11 -> loops s11 = loops s ->
+  excs s11 = {| x_finally := finb; x_handlers := hbs; x_processing := false |} :: excs s ->
+  next s <= elseb -> elseb < next s11 -> afe < next s11 -> (forall h, In h hbs -> h < next s11) ->
+  (forall f, finb = Some f -> f < next s11 /\ f <> elseb) ->
+  agree (next s) l l3 -> (l3 elseb = true -> (forall h, In h hbs -> l3 h = true) /\ (forall f, finb = Some f -> l3 f = true)) ->
+  lok_block inl eb = true -> (inl = true -> loops s <> []) ->
+  let t1 := process_block' (set_cur s11 elseb) eb in
+  exists l4, TE_out s s11 elseb afe (l3 elseb) l l3 eb (connect t1 (cur t1) afe ENormal) l4.
+Proof.
+  intros Se I M11 K11 L11 X11 He1 He2 Hafe Hhb Hfb A3 Hlab Hlok Hinl.
+  set (Le := l3 elseb) in *. set (re := flow_block Le eb).
+  pose proof (i_wfb _ I) as Wb. pose proof (m_next _ _ _ M11) as N11.
+  assert (Wb11 : wfb s11).
+  { split; [pose proof (wb_two _ Wb); flia|apply M11|apply M11| |].
+    - rewrite X11. intros x [<-|Hx]; [cbn [x_finally x_handlers]; split; [intros g Hg; apply (Hfb g Hg)|exact Hhb]|].
+      destruct (wb_fin _ Wb x Hx) as (Q1 & Q2). split; intros; [specialize (Q1 _ H)|specialize (Q2 _ H)]; flia.
+    - rewrite X11, L11. intros lp Hlp. destruct (wb_loops _ Wb lp Hlp) as (Q1 & Q2 & Q3). cbn [length]. repeat split; flia. }
+  assert (I11 : inv (set_cur s11 elseb)).
+  { split; [apply (wfb_mid anyb s11); [apply mid_set_cur, mid_refl_b; exact Wb11|exact Wb11|reflexivity|reflexivity]|exact He2|exact K11|].
+    autorewrite with bst. rewrite X11. intros x g [<-|Hx] Hp Hg; [cbn [x_finally] in Hg; apply (Hfb g Hg)|].
+    destruct (wb_fin _ Wb x Hx) as (Q & _). specialize (Q g Hg). flia. }
+  destruct (Se (set_cur s11 elseb) l3 inl I11 Hlok) as (l4 & A4 & F & C & So & Co & Da & Db & Dc).
+  { autorewrite with bst. rewrite L11. exact Hinl. }
+  autorewrite with bst in *. fold Le re in C, So, Co, Da, Db.
+  intro t1. fold t1 in A4, F, C, So, Co, Da, Db, Dc.
+  pose proof (lf_curlt _ _ F) as Hc1. pose proof (m_next _ _ _ (lf_mid _ _ F)) as N1. autorewrite with bst in N1.
+  exists l4. unfold TE_out. cbv zeta. fold Le re. autorewrite with bst.
+  split; [exact A4|]. split; [|split; [rewrite (lf_loops _ _ F); reflexivity|split; [rewrite (lf_excs _ _ F); reflexivity|split; [apply klt_connect; exact (lf_klt _ _ F)|split; [exact N1|]]]]].
+  { apply mid_connect; [|left; exact Logic.I|exact Hc1|flia].
+    apply (mid_transA _ anyb s11 (set_cur s11 elseb)); [apply mid_set_cur, mid_refl_b; exact Wb11|apply F|intros; left; exact Logic.I]. }
+  split; [|split; [|split; [|split]]].
+  - intros Hctx Hb Hmg Cl. rewrite closed_snoc. split.
+    + apply So; [| |exact Cl].
+      * intro HL. destruct (Hlab HL) as (Q1 & Q2). apply (ctx_push_ok s l l3 (set_cur s11 elseb) finb hbs false I A3 Q1 Q2); [exact L11|exact X11|apply Hctx; exact HL].
+      * intro Hk. apply (brk_push_ok s l l3); [exact I|exact A3|exact L11|apply Hb; exact Hk].
+    + rewrite C. rewrite (A4 afe Hafe). exact Hmg.
+  - intros E HE HR.
+    assert (HE1 : incl (edges t1) E) by (intros x Hx; apply HE; apply in_or_app; left; exact Hx).
+    destruct (Co E HE1 HR) as (P4 & P2 & P3).
+    assert (P1 : rn re = true -> reach E (cur t1)).
+    { intro Hn. destruct (lf_cur _ _ F) as [Q|Q]; autorewrite with bst in Q.
+      - rewrite Q. apply HR. apply (rn_block_le _ _ Hn).
+      - apply P4; [exact Q|exact Hc1|]. rewrite C. exact Hn. }
+    split; [exact P4|]. split; [|split].
+    + intro Hn. eapply reach_step; [apply P1; exact Hn|]. apply HE. apply in_or_app. right. left. reflexivity.
+    + intros Hk Hnp t0 Ht0. apply (P2 Hk); [unfold noproc, in_loop_frames in *; autorewrite with bst; exact Hnp|unfold brk_t, in_loop_frames in *; autorewrite with bst; exact Ht0].
+    + intros HL Hn g Hg. apply (P3 HL Hn g). unfold Cfin in *. autorewrite with bst. exact Hg.
+  - intros k e b0 Hp. autorewrite with plc in Hp. destruct (Da k e b0 Hp) as [Hp0|[Hk|Hm]]; [left; autorewrite with plc in Hp0; exact Hp0|right; left; exact Hk|right; right; exact Hm].
+  - intros k m Hin. destruct (Db k m Hin) as [He|(e & b0 & Hp & Hm)]; [left; exact He|]. right. exists e, b0. split; [autorewrite with plc; exact Hp|exact Hm].
+  - intros k e b0 Hp. autorewrite with plc. apply Dc. autorewrite with plc. exact Hp.
+Qed.
+
+Lemma S_try_sn k body hs eb : S_block body -> S_handlers hs -> S_block eb -> S_stmt (Try k body hs (OSome eb) ONone).
+Proof.
+  intros Sb Sh Se s l inl I Hlok Hinl. cbn [lok_stmt lok_oblock] in Hlok. rewrite !andb_true_r in Hlok.
+  apply andb_true_iff in Hlok. destruct Hlok as (Hlok & Hlok3). apply andb_true_iff in Hlok. destruct Hlok as (Hlok1 & Hlok2).
+  set (L := l (cur s)).
+  open_try'. bsimp.
+  pose proof (i_wfb _ I) as Wb. pose proof (i_cur _ I) as Hc. pose proof (wb_two _ Wb) as H2.
+  set (elseb := N.succ (N.succ (next s))) in *.
+  set (t5 := nb (nb (connect (nb s) (cur s) (next s) ENormal))) in *.
+  assert (M5 : mid anyb s t5) by (apply mid_nb, mid_nb, mid_connect; [apply mid_nb, mid_refl_b; exact Wb|left; exact Logic.I|uflia|uflia]).
+  assert (K5 : klt t5) by (apply klt_nb, klt_nb, klt_connect, klt_nb; exact (i_klt _ I)).
+  assert (N5 : next t5 = N.succ (N.succ (N.succ (next s)))) by reflexivity.
+  destruct (try_setup_sim s t5 (arms_length hs) None hbs s6 I M5 K5 eq_refl eq_refl eq_refl) as (M7 & Wb7 & K7 & N7 & L7 & X7 & E7 & Hlen & Hh & P7);
+    [intros k' e' b; unfold t5; autorewrite with plc; reflexivity|rewrite N5; flia|discriminate|exact Enb|].
+  set (t7 := set_excs s6 ({| x_finally := None; x_handlers := hbs; x_processing := false |} :: excs s6)) in *.
+  rewrite N5 in *.
+  set (rb := flow_block L body). set (rh := flow_arms L hs). set (re := flow_block (rn rb) eb).
+  set (l1 := upd (try_lab s l L (rn re || rn rh)) elseb (rn rb)).
+  assert (A1 : agree (next s) l l1).
+  { intros b Hb. unfold l1. rewrite upd_other by (unfold elseb; flia). apply try_lab_old. exact Hb. }
+  assert (Hl1n : forall b, next s <= b -> b <> N.succ (next s) -> b <> elseb -> l1 b = L).
+  { intros b Q1 Q2 Q3. unfold l1. rewrite upd_other by exact Q3. apply try_lab_new; assumption. }
+  assert (Hl1x : l1 (N.succ (next s)) = rn re || rn rh).
+  { unfold l1. rewrite upd_other by (unfold elseb; flia). apply try_lab_exit. }
+  assert (Hl1e : l1 elseb = rn rb) by (unfold l1; apply upd_same).
+  subst s8p.
+  destruct (S_try_body s t7 (next s) elseb (N.succ (next s)) hbs None l l1 inl body hs Sb Sh I M7 Wb7 K7 L7 X7) as (l3 & TB);
+    try assumption; try (unfold elseb; flia); try discriminate.
+  { intros h Hh'. apply Hh in Hh'. flia. }
+  { apply Hl1n; unfold elseb; flia. }
+  { intros h Hh'. apply Hh in Hh'. apply Hl1n; unfold elseb; flia. }
+  { intro Hn. rewrite Hl1e. exact Hn. }
+  { intro Hn. rewrite Hl1x. fold L rh. unfold rh, L. rewrite Hn. apply orb_true_r. }
+  rewrite <- Es11p in TB.
+  destruct TB as (A3 & M11 & L11 & X11 & K11 & C11 & N11 & So & Co & Da & Db & Dc). fold L rb rh in So, Co, Da, Db.
+  assert (M11' : mid anyb s s11p) by (apply (mid_transA _ anyb s t7); [exact M7|exact M11|intros; left; exact Logic.I]).
+  assert (Hl3e : l3 elseb = rn rb) by (rewrite (A3 elseb) by (unfold elseb; flia); exact Hl1e).
+  destruct (S_try_else s s11p elseb (N.succ (next s)) None hbs l l3 inl eb Se I M11' K11) as (l4 & TE); try assumption; try (unfold elseb; flia); try discriminate.
+  { rewrite L11. exact L7. }
+  { rewrite X11. exact X7. }
+  { intros h Hh'. apply Hh in Hh'. flia. }
+  { intros b Hb. rewrite (A3 b) by flia. apply A1. exact Hb. }
+  { rewrite Hl3e. intro Hn. split; [|discriminate]. intros h Hh'. apply Hh in Hh'. rewrite (A3 h) by flia.
+    rewrite Hl1n by (unfold elseb; flia). apply (rn_block_le _ _ Hn). }
+  cbv zeta in TE. rewrite <- Et1p in TE. rewrite Hl3e in TE.
+  set (s12 := connect t1p (cur t1p) (N.succ (next s)) ENormal) in *.
+  destruct TE as (A4 & M12 & L12 & X12 & K12 & N12 & SoE & CoE & DaE & DbE & DcE). fold re in SoE, CoE, DaE, DbE.
+  assert (Xt1 : excs t1p = excs t7) by (rewrite <- X11; exact X12). rewrite Xt1, X7. cbn [tl].
+  exists l4. split; [intros b Hb; rewrite (A4 b) by flia; rewrite (A3 b) by flia; apply A1; exact Hb|].
+  cbn [flow_stmt flow_oblock opt_n rn rk rmarks spans_stmt spans_oblock elif_stmt elif_oblock]. fold L rb rh re. rewrite !app_nil_r.
+  split; [|split; [|split; [|split; [|split; [|split]]]]].
+  - apply lframe_mid; autorewrite with bst; try flia.
+    + apply mid_set_excs. apply (mid_transA _ anyb s s11p); [exact M11'|exact M12|intros; left; exact Logic.I].
+    + rewrite L12, L11. exact L7.
+    + reflexivity.
+    + apply klt_set_excs. exact K12.
+  - autorewrite with bst. rewrite (A4 (N.succ (next s))) by flia. rewrite (A3 (N.succ (next s))) by flia. exact Hl1x.
+  - intros Hctx Hb Cl. autorewrite with bst. apply SoE.
+    + intro Hn. apply Hctx. apply (rn_block_le _ _ Hn).
+    + intro Hk. apply Hb. rewrite Hk. apply orb_true_r.
+    + intro Hn. rewrite (A3 (N.succ (next s))) by flia. rewrite Hl1x, Hn. reflexivity.
+    + apply So; [exact Hctx| |].
+      * intro Hk. apply Hb. rewrite Hk. reflexivity.
+      * rewrite E7, closed_snoc. split; [apply (closed_ext l); assumption|].
+        rewrite (A1 _ Hc). rewrite Hl1n by (unfold elseb; flia). exact (fun H => H).
+  - intros E HE HR. autorewrite with bst in HE.
+    assert (HE11 : incl (edges s11p) E).
+    { destruct (m_edges _ _ _ M12) as (D & ED & _). intros x Hx. apply HE. rewrite ED. apply in_or_app. left. exact Hx. }
+    assert (HRt : L = true -> reach E (next s)).
+    { intro HL. eapply reach_step; [apply HR; exact HL|]. apply HE11. destruct (m_edges _ _ _ M11) as (D & ED & _). rewrite ED, E7.
+      apply in_or_app. left. apply in_or_app. right. left. reflexivity. }
+    destruct (Co E HE11 HRt) as (P4 & P1 & P1h & PH & P2 & P3).
+    destruct (CoE E HE P1) as (P4E & P1E & P2E & P3E).
+    autorewrite with bst. split; [|split].
+    + intros b Hb1 Hb2 Hb3. destruct (N.lt_ge_cases b (next s11p)) as [Hlt11|Hge11]; [|apply P4E; assumption].
+      rewrite (A4 b Hlt11) in Hb3.
+      destruct (N.lt_ge_cases b (next t7)) as [Hlt|Hge]; [|apply P4; assumption].
+      rewrite (A3 b Hlt) in Hb3. destruct (N.eq_dec b (N.succ (next s))) as [->|Hne].
+      * rewrite Hl1x in Hb3. apply orb_true_iff in Hb3. destruct Hb3 as [Hb3|Hb3]; [apply P1E|apply P1h]; exact Hb3.
+      * destruct (N.eq_dec b elseb) as [->|Hne2]; [rewrite Hl1e in Hb3; apply P1; exact Hb3|].
+        rewrite Hl1n in Hb3 by assumption.
+        destruct (N.eq_dec b (next s)) as [->|Hne']; [apply HRt; exact Hb3|].
+        apply PH; [apply Hh; unfold elseb in *; flia|exact Hb3].
+    + intros Hk Hnp t0 Ht0. apply orb_true_iff in Hk. destruct Hk as [Hk|Hk].
+      * apply (P2 Hk); [apply (push_noproc s t7 None hbs); assumption|rewrite (push_brk_none s t7 hbs); assumption].
+      * apply (P2E Hk); [apply (noproc_eq t7); [exact L11|exact X11|apply (push_noproc s t7 None hbs); assumption]|].
+        rewrite (brk_t_eq t7 s11p L11 X11). rewrite (push_brk_none s t7 hbs); assumption.
+    + intros HL Hn g Hg. apply orb_false_iff in Hn. destruct Hn as (Hn & _).
+      assert (Hg7 : Cfin g t7) by (apply (push_Cfin_none s t7 hbs); assumption).
+      destruct (rn rb) eqn:Erb.
+      * apply (P3E eq_refl Hn g). apply (Cfin_eq g t7); assumption.
+      * apply (P3 HL eq_refl g Hg7).
+  - intros k' e' b Hp. autorewrite with plc in Hp. destruct (DaE k' e' b Hp) as [Hp0|[Hk|(Hm & Hs)]].
+    + destruct (Da k' e' b Hp0) as [Hp1|[Hk|(Hm & Hs)]]; [left; apply P7; exact Hp1|right; left; exact Hk|].
+      right. right. split; [|rewrite app_assoc; apply in_or_app; left; exact Hs].
+      assert (Hb : b < next s11p).
+      { destruct Hp0 as (lst & y & Hin & _). apply K11. unfold haskey. apply in_map_iff. exists (b, lst). split; [reflexivity|exact Hin]. }
+      rewrite (A4 b Hb). rewrite app_assoc. apply in_or_app. left. exact Hm.
+    + right. left. exact Hk.
+    + right. right. split; [rewrite app_assoc; apply in_or_app; right; exact Hm|rewrite app_assoc; apply in_or_app; right; exact Hs].
+  - intros k' m Hin. rewrite app_assoc in Hin. apply in_app_or in Hin. destruct Hin as [Hin|Hin].
+    + destruct (Db k' m Hin) as [He|(e' & b & Hp & Hm)]; [left; rewrite app_assoc; apply in_or_app; left; exact He|].
+      right. exists e', b. split; [autorewrite with plc; apply DcE; exact Hp|].
+      assert (Hb : b < next s11p).
+      { destruct Hp as (lst & y & Hin' & _). apply K11. unfold haskey. apply in_map_iff. exists (b, lst). split; [reflexivity|exact Hin']. }
+      rewrite (A4 b Hb). exact Hm.
+    + destruct (DbE k' m Hin) as [He|(e' & b & Hp & Hm)]; [left; rewrite app_assoc; apply in_or_app; right; exact He|].
+      right. exists e', b. split; [autorewrite with plc; exact Hp|exact Hm].
+  - intros k' e' b Hp. autorewrite with plc. apply DcE, Dc. apply P7. exact Hp.
+Qed.
+
+Ltac fl2 := repeat match goal with x := _ : N |- _ => progress unfold x in * end; flia.
+Lemma S_try_ss k body hs eb fb : S_block body -> S_handlers hs -> S_block eb -> S_block fb -> S_stmt (Try k body hs (OSome eb) (OSome fb)).
+Proof.
+  intros Sb Sh Se Sf s l inl I Hlok Hinl. cbn [lok_stmt lok_oblock] in Hlok.
+  apply andb_true_iff in Hlok. destruct Hlok as (Hlok & Hlok4). apply andb_true_iff in Hlok. destruct Hlok as (Hlok & Hlok3).
+  apply andb_true_iff in Hlok. destruct Hlok as (Hlok1 & Hlok2).
+  set (L := l (cur s)).
+  cbn beta iota delta [process_stmt'] fix match. peel_all ident:(p).
+  match goal with |- context [new_blocks ?t ?n] => destruct (new_blocks t n) as [hbs s6] eqn:Enb end.
+  cbv beta iota. repeat peel_step_fin2 ident:(p) (N.succ (N.succ (next s))). bsimp.
+  pose proof (i_wfb _ I) as Wb. pose proof (i_cur _ I) as Hc. pose proof (wb_two _ Wb) as H2.
+  set (f := N.succ (N.succ (next s))) in *. set (elseb := N.succ f) in *.
+  set (t5 := nb (nb (nb (connect (nb s) (cur s) (next s) ENormal)))) in *.
+  assert (M5 : mid anyb s t5) by (apply mid_nb, mid_nb, mid_nb, mid_connect; [apply mid_nb, mid_refl_b; exact Wb|left; exact Logic.I|uflia|uflia]).
+  assert (K5 : klt t5) by (apply klt_nb, klt_nb, klt_nb, klt_connect, klt_nb; exact (i_klt _ I)).
+  assert (N5 : next t5 = N.succ (N.succ (N.succ (N.succ (next s))))) by reflexivity.
+  destruct (try_setup_sim s t5 (arms_length hs) (Some f) hbs s6 I M5 K5 eq_refl eq_refl eq_refl) as (M7 & Wb7 & K7 & N7 & L7 & X7 & E7 & Hlen & Hh & P7);
+    [intros k' e' b; unfold t5; autorewrite with plc; reflexivity|rewrite N5; flia|intros g Hg; inversion Hg; subst g; rewrite N5; unfold f; flia|exact Enb|].
+  set (t7 := set_excs s6 ({| x_finally := Some f; x_handlers := hbs; x_processing := false |} :: excs s6)) in *.
+  rewrite N5 in *.
+  set (rb := flow_block L body). set (rh := flow_arms L hs). set (re := flow_block (rn rb) eb). set (rf := flow_block L fb).
+  set (l1 := upd (try_lab s l L (rn rf)) elseb (rn rb)).
+  assert (A1 : agree (next s) l l1).
+  { intros b Hb. unfold l1. rewrite upd_other by fl2. apply try_lab_old. exact Hb. }
+  assert (Hl1n : forall b, next s <= b -> b <> N.succ (next s) -> b <> elseb -> l1 b = L).
+  { intros b Q1 Q2 Q3. unfold l1. rewrite upd_other by exact Q3. apply try_lab_new; assumption. }
+  assert (Hl1x : l1 (N.succ (next s)) = rn rf).
+  { unfold l1. rewrite upd_other by fl2. apply try_lab_exit. }
+  assert (Hl1e : l1 elseb = rn rb) by (unfold l1; apply upd_same).
+  subst s8p.
+  destruct (S_try_body s t7 (next s) elseb f hbs (Some f) l l1 inl body hs Sb Sh I M7 Wb7 K7 L7 X7) as (l3 & TB);
+    try assumption; try fl2.
+  { intros h Hh'. apply Hh in Hh'. flia. }
+  { intros g Hg. inversion Hg; subst g. repeat split; try fl2. intro Hin. apply Hh in Hin. flia. }
+  { apply Hl1n; fl2. }
+  { intros h Hh'. apply Hh in Hh'. apply Hl1n; fl2. }
+  { intros g Hg. inversion Hg; subst g. apply Hl1n; fl2. }
+  { intro Hn. rewrite Hl1e. exact Hn. }
+  { intro Hn. rewrite Hl1n by fl2. apply (rn_arms_le _ _ Hn). }
+  rewrite <- Es11p in TB.
+  destruct TB as (A3 & M11 & L11 & X11 & K11 & C11 & N11 & So & Co & Da & Db & Dc). fold L rb rh in So, Co, Da, Db.
+  assert (M11' : mid anyb s s11p) by (apply (mid_transA _ anyb s t7); [exact M7|exact M11|intros; left; exact Logic.I]).
+  assert (Hl3e : l3 elseb = rn rb) by (rewrite (A3 elseb) by fl2; exact Hl1e).
+  assert (Hl3n : forall b, next s <= b -> b < next t7 -> b <> N.succ (next s) -> b <> elseb -> l3 b = L).
+  { intros b Q1 Q2 Q3 Q4. rewrite (A3 b Q2). apply Hl1n; assumption. }
+  destruct (S_try_else s s11p elseb f (Some f) hbs l l3 inl eb Se I M11' K11) as (l4 & TE); try assumption; try fl2.
+  { rewrite L11. exact L7. }
+  { rewrite X11. exact X7. }
+  { intros h Hh'. apply Hh in Hh'. flia. }
+  { intros g Hg. inversion Hg; subst g. split; fl2. }
+  { intros b Hb. rewrite (A3 b) by flia. apply A1. exact Hb. }
+  { rewrite Hl3e. intro Hn. pose proof (rn_block_le _ _ Hn) as HL. split.
+    - intros h Hh'. apply Hh in Hh'. rewrite Hl3n by fl2. exact HL.
+    - intros g Hg. inversion Hg; subst g. rewrite Hl3n by fl2. exact HL. }
+  cbv zeta in TE. rewrite <- Et1p in TE. rewrite Hl3e in TE.
+  set (s12 := connect t1p (cur t1p) f ENormal) in *.
+  destruct TE as (A4 & M12 & L12 & X12 & K12 & N12 & SoE & CoE & DaE & DbE & DcE). fold re in SoE, CoE, DaE, DbE.
+  assert (M12' : mid anyb s s12) by (apply (mid_transA _ anyb s s11p); [exact M11'|exact M12|intros; left; exact Logic.I]).
+  assert (N12' : next s12 = next t1p) by reflexivity.
+  destruct (S_try_fin s s12 f hbs l l4 inl fb Sf I M12' K12) as (l5 & TF); try assumption; try fl2.
+  { rewrite L12, L11. exact L7. }
+  { rewrite X12, X11. exact X7. }
+  { intros h Hh'. apply Hh in Hh'. flia. }
+  { intros b Hb. rewrite (A4 b) by flia. rewrite (A3 b) by flia. apply A1. exact Hb. }
+  { rewrite (A4 f) by fl2. apply Hl3n; fl2. }
+  { intros h Hh'. apply Hh in Hh'. rewrite (A4 h) by flia. apply Hl3n; fl2. }
+  { rewrite (A4 (N.succ (next s))) by flia. rewrite (A3 (N.succ (next s))) by flia. exact Hl1x. }
+  cbv zeta in TF.
+  rewrite <- Et2p in TF.
+  set (sF := fin_prop (connect (set_processing t2p false) (cur (set_processing t2p false)) (N.succ (next s)) ENormal) f) in *.
+  destruct TF as (A5 & MF & LF & XF & KF & NF & SoF & CoF & DaF & DbF & DcF). fold L rf in SoF, CoF, DaF, DbF.
+  rewrite XF. cbn [tl].
+  exists l5. split; [intros b Hb; rewrite (A5 b) by flia; rewrite (A4 b) by flia; rewrite (A3 b) by flia; apply A1; exact Hb|].
+  cbn [flow_stmt flow_oblock opt_n rn rk rmarks spans_stmt spans_oblock elif_stmt elif_oblock]. fold L rb rh re rf.
+  split; [|split; [|split; [|split; [|split; [|split]]]]].
+  - apply lframe_mid; autorewrite with bst; try flia.
+    + apply mid_set_excs. apply (mid_transA _ anyb s s12); [exact M12'|exact MF|intros; left; exact Logic.I].
+    + exact LF.
+    + reflexivity.
+    + apply klt_set_excs. exact KF.
+  - autorewrite with bst. rewrite (A5 (N.succ (next s))) by flia. rewrite (A4 (N.succ (next s))) by flia. rewrite (A3 (N.succ (next s))) by flia. exact Hl1x.
+  - intros Hctx Hb Cl. autorewrite with bst. apply SoF; [exact Hctx|exact Hb|]. apply SoE.
+    + intro Hn. apply Hctx. apply (rn_block_le _ _ Hn).
+    + intro Hk. apply Hb. apply (rn_block_le L body). apply (rk_block_le _ _ Hk).
+    + intro Hn. rewrite Hl3n by fl2. apply (rn_block_le L body). apply (rn_block_le _ _ Hn).
+    + apply So; [exact Hctx| |].
+      * intro Hk. apply Hb. apply orb_true_iff in Hk. destruct Hk as [Hk|Hk]; [apply (rk_block_le _ _ Hk)|apply (rk_arms_le _ _ Hk)].
+      * rewrite E7, closed_snoc. split; [apply (closed_ext l); assumption|].
+        rewrite (A1 _ Hc). rewrite Hl1n by fl2. exact (fun H => H).
+  - intros E HE HR. autorewrite with bst in HE.
+    assert (HE12 : incl (edges s12) E).
+    { destruct (m_edges _ _ _ MF) as (D & ED & _). intros x Hx. apply HE. rewrite ED. apply in_or_app. left. exact Hx. }
+    assert (HE11 : incl (edges s11p) E).
+    { destruct (m_edges _ _ _ M12) as (D & ED & _). intros x Hx. apply HE12. rewrite ED. apply in_or_app. left. exact Hx. }
+    assert (HRt : L = true -> reach E (next s)).
+    { intro HL. eapply reach_step; [apply HR; exact HL|]. apply HE11. destruct (m_edges _ _ _ M11) as (D & ED & _). rewrite ED, E7.
+      apply in_or_app. left. apply in_or_app. right. left. reflexivity. }
+    destruct (Co E HE11 HRt) as (P4 & P1 & P1h & PH & P2 & P3).
+    destruct (CoE E HE12 P1) as (P4E & P1E & P2E & P3E).
+    assert (HRf : L = true -> reach E f).
+    { intro HL. assert (Hf7 : Cfin f t7) by (apply (push_Cfin_some s t7 hbs f); assumption).
+      destruct (rn rb) eqn:Erb; [|apply (P3 HL eq_refl f Hf7)].
+      destruct (rn re) eqn:Ere; [apply P1E; reflexivity|]. apply (P3E eq_refl eq_refl f). apply (Cfin_eq f t7); assumption. }
+    destruct (CoF E HE HRf) as (P4F & P1F & P2F & P3F).
+    autorewrite with bst. split; [|split].
+    + intros b Hb1 Hb2 Hb3. destruct (N.lt_ge_cases b (next s12)) as [Hlt12|Hge12]; [|apply P4F; assumption].
+      rewrite (A5 b Hlt12) in Hb3.
+      destruct (N.lt_ge_cases b (next s11p)) as [Hlt11|Hge11]; [|apply P4E; assumption].
+      rewrite (A4 b Hlt11) in Hb3.
+      destruct (N.lt_ge_cases b (next t7)) as [Hlt|Hge]; [|apply P4; assumption].
+      rewrite (A3 b Hlt) in Hb3. destruct (N.eq_dec b (N.succ (next s))) as [->|Hne].
+      * rewrite Hl1x in Hb3. apply P1F. exact Hb3.
+      * destruct (N.eq_dec b elseb) as [->|Hne2]; [rewrite Hl1e in Hb3; apply P1; exact Hb3|].
+        rewrite Hl1n in Hb3 by assumption.
+        destruct (N.eq_dec b (next s)) as [->|Hne']; [apply HRt; exact Hb3|].
+        destruct (N.eq_dec b f) as [->|Hne'']; [apply HRf; exact Hb3|].
+        apply PH; [apply Hh; unfold elseb, f in *; flia|exact Hb3].
+    + exact P2F.
+    + intros HL _ g Hg. apply (P3F HL g Hg).
+  - intros k' e' b Hp. autorewrite with plc in Hp. destruct (DaF k' e' b Hp) as [Hp0|[Hk|(Hm & Hs)]].
+    + destruct (DaE k' e' b Hp0) as [Hp1|[Hk|(Hm & Hs)]].
+      * destruct (Da k' e' b Hp1) as [Hp2|[Hk|(Hm & Hs)]]; [left; apply P7; exact Hp2|right; left; exact Hk|].
+        right. right. split; [|rewrite app_assoc; apply in_or_app; left; exact Hs].
+        assert (Hb : b < next s11p).
+        { destruct Hp1 as (lst & y & Hin & _). apply K11. unfold haskey. apply in_map_iff. exists (b, lst). split; [reflexivity|exact Hin]. }
+        rewrite (A5 b) by flia. rewrite (A4 b Hb). rewrite app_assoc. apply in_or_app. left. exact Hm.
+      * right. left. exact Hk.
+      * right. right.
+        assert (Hb : b < next s12).
+        { destruct Hp0 as (lst & y & Hin & _). apply K12. unfold haskey. apply in_map_iff. exists (b, lst). split; [reflexivity|exact Hin]. }
+        split; [rewrite (A5 b Hb)|]; do 2 (apply in_or_app; right); apply in_or_app; left; assumption.
+    + right. left. exact Hk.
+    + right. right. split; do 3 (apply in_or_app; right); assumption.
+  - intros k' m Hin. rewrite app_assoc in Hin. apply in_app_or in Hin. destruct Hin as [Hin|Hin].
+    + destruct (Db k' m Hin) as [He|(e' & b & Hp & Hm)]; [left; rewrite app_assoc; apply in_or_app; left; exact He|].
+      right. exists e', b. split; [autorewrite with plc; apply DcF, DcE; exact Hp|].
+      assert (Hb : b < next s11p).
+      { destruct Hp as (lst & y & Hin' & _). apply K11. unfold haskey. apply in_map_iff. exists (b, lst). split; [reflexivity|exact Hin']. }
+      rewrite (A5 b) by flia. rewrite (A4 b Hb). exact Hm.
+    + apply in_app_or in Hin. destruct Hin as [Hin|Hin].
+      * destruct (DbE k' m Hin) as [He|(e' & b & Hp & Hm)]; [left; do 2 (apply in_or_app; right); apply in_or_app; left; exact He|].
+        right. exists e', b. split; [autorewrite with plc; apply DcF; exact Hp|].
+        assert (Hb : b < next s12).
+        { destruct Hp as (lst & y & Hin' & _). apply K12. unfold haskey. apply in_map_iff. exists (b, lst). split; [reflexivity|exact Hin']. }
+        rewrite (A5 b Hb). exact Hm.
+      * destruct (DbF k' m Hin) as [He|(e' & b & Hp & Hm)]; [left; do 3 (apply in_or_app; right); exact He|].
+        right. exists e', b. split; [autorewrite with plc; exact Hp|exact Hm].
+  - intros k' e' b Hp. autorewrite with plc. apply DcF, DcE, Dc. apply P7. exact Hp.
+Qed.
